@@ -142,19 +142,27 @@ def eval_provseq(h, flavour, seq, stats):
             regs[place].unregister([h.R0], h.prov[p], '')
             live.pop((place, p), None)
     contents = [(place, (h.R0,), h.prov[p], '', val) for (place, p), val in live.items()]
-    for lreq in ('R0', 'R2'):
-        for qp in ('P0', 'P1', 'P2', 'P3', 'P4'):
-            stats[0] += 1
-            got = reg.lookup([h.look[lreq]], h.qprov[qp], '', SENT)
-            acc = lookup_winners({0: 0, 1: 1}, contents, [h.look[lreq]], h.qprov[qp], '')
-            if acc is None:
-                if got is not SENT:
-                    return ('found-although-none-applies', lreq, qp, '', got)
-            else:
-                if len(contents) > 1:
-                    stats[1] += 1
-                if not any(got is a for a in acc):
-                    return ('wrong-winner', lreq, qp, '', got if got is not SENT else 'default', acc)
+    for recreated in (False, True):
+      if recreated:
+        # the lookup objects are created anew over the populated registries, as
+        # a persistent registry does after loading its state: the extendors are
+        # rebuilt from the registrations instead of having grown incrementally
+        for r in regs:
+            r._createLookup()
+            r.changed(r)
+      for lreq in ('R0', 'R2'):
+          for qp in ('P0', 'P1', 'P2', 'P3', 'P4'):
+              stats[0] += 1
+              got = reg.lookup([h.look[lreq]], h.qprov[qp], '', SENT)
+              acc = lookup_winners({0: 0, 1: 1}, contents, [h.look[lreq]], h.qprov[qp], '')
+              if acc is None:
+                  if got is not SENT:
+                      return ('found-although-none-applies', lreq, qp, '', got)
+              else:
+                  if len(contents) > 1:
+                      stats[1] += 1
+                  if not any(got is a for a in acc):
+                      return ('wrong-winner', lreq, qp, '', got if got is not SENT else 'default', acc)
     return None
 
 
